@@ -85,6 +85,12 @@ C10Step(m, o) ==
                        /\ \E i \in DOMAIN o.args.updates :
                              /\ o.args.updates[i].id = o.pre.id /\ o.args.updates[i].st = "D"
                              /\ \A j \in 1..(i - 1) : Addr(o.args.updates[j].id) # Addr(o.pre.id)
+        \* a suspicion at the maximum incarnation cannot be refuted: renew or become defunct
+        unrefutable == /\ o.call = "apply_many" /\ o.res = "Ok" /\ ~m.dead /\ o.hpre.conn # "U"
+                       /\ \E i \in DOMAIN o.args.updates :
+                             /\ o.args.updates[i].id = o.pre.id /\ o.args.updates[i].st = "S"
+                             /\ o.args.updates[i].inc = IncMax
+                             /\ \A j \in 1..(i - 1) : Addr(o.args.updates[j].id) # Addr(o.pre.id)
         rejoins == {n \in Range(Notifs(o.out)) : n.k = "Rejoin"}
         oldDownGossiped ==
             \/ \E i \in DOMAIN o.hpost.upd : o.hpost.upd[i].m = DownOf(o.pre.id)
@@ -107,6 +113,8 @@ C10Step(m, o) ==
                        \/ (rejoins # {} /\ idChanged /\ Wins(o.post.id, o.pre.id)
                            /\ (oldDownGossiped \/ o.hpre.conn = "U")),   \* already defunct: its death was gossiped then
                     "learned-own-death-but-neither-renewed-(with-Down-gossip)-nor-defunct")
+             \cup V(unrefutable => (HasNotif(o.out, "Defunct") \/ (rejoins # {} /\ idChanged)),
+                    "suspected-at-the-maximum-incarnation-but-neither-renewed-nor-defunct")
              \* a defunct instance does not carry on as an active member: it neither probes
              \* nor answers probes / join requests (gossip reacting to a suspicion and
              \* TurnUndead replies are not "carrying on as active")
